@@ -61,15 +61,23 @@ func ExecMain(name string) {
 	})
 }
 
-type collector struct {
-	r      *Run
-	f      *Family
+// Collector gathers the events that executions return, one trace per request.
+type Collector struct {
 	events map[int][]json.RawMessage
 	class  map[int]string
-	crashN map[string]int
+	req    map[int][]byte
+	next   int
 }
 
-func (r *Run) handle(f *Family, res Result, col *collector) {
+// NewCollector returns an empty collector.
+func NewCollector() *Collector {
+	return &Collector{events: map[int][]json.RawMessage{}, class: map[int]string{}, req: map[int][]byte{}}
+}
+
+// Len is the number of traces collected.
+func (c *Collector) Len() int { return len(c.events) }
+
+func (r *Run) handle(f *Family, res Result, col *Collector) {
 	kind, body := res.Req[0], res.Req[1:]
 	if res.Crash != "" {
 		class := "?"
@@ -121,11 +129,21 @@ func (r *Run) handle(f *Family, res Result, col *collector) {
 		r.Extra["outside_claim"] = toInt(r.Extra["outside_claim"]) + 1
 		r.mu.Unlock()
 	}
-	if kind == 'B' && col != nil {
-		var q struct{ Tid int }
-		json.Unmarshal(body, &q)
-		col.events[q.Tid] = v.Events
-		col.class[q.Tid] = v.Class
+	if col != nil && len(v.Events) > 0 {
+		tid := 0
+		if kind == 'B' {
+			var q struct{ Tid int }
+			json.Unmarshal(body, &q)
+			tid = q.Tid
+			col.events[tid] = v.Events
+		} else {
+			col.next++
+			tid = 1000000 + col.next
+			reset := json.RawMessage(fmt.Sprintf(`{"ev":"reset","tid":%d}`, tid))
+			col.events[tid] = append([]json.RawMessage{reset}, v.Events...)
+		}
+		col.class[tid] = v.Class
+		col.req[tid] = res.Req
 	}
 	if !v.OK && !v.Out {
 		r.Fail(Candidate{Family: f.Name, Class: v.Class, Sig: v.Sig, Case: json.RawMessage(jsonOrString(res.Req)), Detail: v.Detail})
@@ -140,8 +158,14 @@ func jsonOrString(req []byte) []byte {
 // DirectionA runs the design configuration and replays every exported case
 // into the real code. keep (optional) selects cases, e.g. a residue class.
 func (r *Run) DirectionA(fam string, o TLCOpts, keep func(i int64, body string) bool) *TLCResult {
+	return r.DirectionAC(fam, o, keep, nil)
+}
+
+// DirectionAC is DirectionA with the events of the executions collected for a
+// later ValidateTrace.
+func (r *Run) DirectionAC(fam string, o TLCOpts, keep func(i int64, body string) bool, col *Collector) *TLCResult {
 	f := Families[fam]
-	pool := NewPool(fam, 0, func(res Result) { r.handle(f, res, nil) })
+	pool := NewPool(fam, 0, func(res Result) { r.handle(f, res, col) })
 	var i int64
 	o.OnLine = func(line string) {
 		if body, ok := CaseBody(line, "CASE"); ok {
@@ -186,38 +210,42 @@ func (r *Run) SubmitAll(fam string, kind byte, cases [][]byte) {
 // events as one ndjson trace file and lets the trace specification judge them.
 func (r *Run) DirectionB(fam string, n int, o TLCOpts) {
 	f := Families[fam]
-	col := &collector{r: r, f: f, events: map[int][]json.RawMessage{}, class: map[int]string{}}
+	col := NewCollector()
 	pool := NewPool(fam, 0, func(res Result) { r.handle(f, res, col) })
 	for tid := 1; tid <= n; tid++ {
 		pool.Submit([]byte(fmt.Sprintf(`B{"seed":%d,"tid":%d}`, r.Seed, tid)))
 	}
 	pool.Close()
+	r.ValidateTrace(fam, col, o)
+}
+
+// ValidateTrace writes the collected events as one ndjson file and lets the
+// trace specification judge them.
+func (r *Run) ValidateTrace(fam string, col *Collector, o TLCOpts) {
 	tids := make([]int, 0, len(col.events))
 	for t := range col.events {
 		tids = append(tids, t)
 	}
 	sort.Ints(tids)
-	path := filepath.Join(r.Out, fam+"-trace.ndjson")
+	path := filepath.Join(r.Out, fmt.Sprintf("%s-trace-%d.ndjson", fam, len(r.Cmds)))
 	fh, err := os.Create(path)
 	if err != nil {
 		r.Infra(err.Error())
 		return
 	}
 	w := bufio.NewWriterSize(fh, 1<<20)
-	lineTid := []int{0}
 	lines := [][]byte{nil}
 	for _, t := range tids {
 		for _, e := range col.events[t] {
 			w.Write(e)
 			w.WriteByte('\n')
-			lineTid = append(lineTid, t)
 			lines = append(lines, e)
 		}
 	}
 	w.Flush()
 	fh.Close()
 	if len(lines) == 1 {
-		r.Infra(fam + ": direction B produced no events")
+		r.Infra(fam + ": no events to validate")
 		return
 	}
 	if o.Env == nil {
@@ -240,11 +268,20 @@ func (r *Run) DirectionB(fam string, n int, o TLCOpts) {
 					det = det[:1500]
 				}
 			}
-			evs, _ := json.Marshal(col.events[tid])
+			why := ""
+			if len(v) > 2 {
+				why = fmt.Sprintf(" (reason %d)", v[2])
+			}
+			fp := col.events[tid]
+			if tid > 1000000 {
+				fp = fp[1:] // the reset line inserted by the harness is not part of the fingerprint
+			}
+			evs, _ := json.Marshal(fp)
 			h := sha1.Sum(evs)
-			r.Fail(Candidate{Family: fam, Class: col.class[tid], Sig: "trace-reject" + rejSuffix(lines, l),
-				Case:   json.RawMessage(fmt.Sprintf(`{"seed":%d,"tid":%d,"events_sha1":"%x"}`, r.Seed, tid, h[:8])),
-				Detail: fmt.Sprintf("the trace specification has no step for event %d of trace %d: %s", l, tid, det)})
+			cj, _ := json.Marshal(map[string]any{"req": string(col.req[tid]), "events_sha1": fmt.Sprintf("%x", h[:8])})
+			r.Fail(Candidate{Family: fam, Class: col.class[tid], Sig: "trace-reject" + rejSuffix(lines, l) + rejReason(v),
+				Case:   cj,
+				Detail: fmt.Sprintf("the trace specification has no step for event %d of trace %d%s: %s", l, tid, why, det)})
 		}
 	}
 	res, err := RunTLC(r.SpecDir(), r.Out, o)
@@ -265,6 +302,13 @@ func (r *Run) DirectionB(fam string, n int, o TLCOpts) {
 	r.mu.Unlock()
 }
 
+func rejReason(v []int) string {
+	if len(v) > 2 {
+		return fmt.Sprintf(":r%d", v[2])
+	}
+	return ""
+}
+
 func rejSuffix(lines [][]byte, l int) string {
 	if l >= 1 && l < len(lines) {
 		var e struct{ Ev string }
@@ -279,15 +323,14 @@ func rejSuffix(lines [][]byte, l int) string {
 func Reproduce(c Candidate) (bool, string) {
 	var req string
 	var tr struct {
-		Seed   int64
-		Tid    int
+		Req    string `json:"req"`
 		Events string `json:"events_sha1"`
 	}
 	if err := json.Unmarshal(c.Case, &req); err != nil {
 		if err := json.Unmarshal(c.Case, &tr); err != nil || tr.Events == "" {
 			return false, "unreadable candidate"
 		}
-		req = fmt.Sprintf(`B{"seed":%d,"tid":%d}`, tr.Seed, tr.Tid)
+		req = tr.Req
 	}
 	var got *Result
 	p := NewPool(c.Family, 1, func(res Result) { got = &res })
@@ -306,8 +349,12 @@ func Reproduce(c Candidate) (bool, string) {
 		return true, "panic"
 	}
 	if tr.Events != "" {
-		evs, _ := json.Marshal(v.Events)
-		h := sha1.Sum(evs)
+		all := v.Events
+		if len(req) > 0 && req[0] == 'A' { // the harness-inserted reset line is not part of the fingerprint
+			h := sha1.Sum(mustJSON(all))
+			return fmt.Sprintf("%x", h[:8]) == tr.Events, "regenerated trace differs"
+		}
+		h := sha1.Sum(mustJSON(all))
 		return fmt.Sprintf("%x", h[:8]) == tr.Events, "regenerated trace differs"
 	}
 	return !v.OK && !v.Out, v.Detail
@@ -319,3 +366,5 @@ var Checks = map[string]func(r *Run){}
 // CaseSuffix, when set, replaces the closing brace of every exported case: a
 // way for a check to add a field (e.g. the concretisation tier) to the cases.
 var CaseSuffix string
+
+func mustJSON(v any) []byte { b, _ := json.Marshal(v); return b }
